@@ -72,6 +72,8 @@ namespace
   int g_errfd = -1;
   off_t g_erroff = 0;
 
+  int g_stdoutfd = -1;
+
   void
   capture_stderr_start ()
   {
@@ -80,6 +82,31 @@ namespace
       _exit (3);
     fflush (stderr);
     dup2 (g_errfd, 2);
+
+    // The library has no business writing to stdout; whatever it writes
+    // there must not end up in the protocol stream of the worker.
+    g_stdoutfd = memfd_create ("zsim-stdout", 0);
+    if (g_stdoutfd < 0)
+      _exit (3);
+    dup2 (g_stdoutfd, 1);
+  }
+
+  std::string
+  captured_stdout ()
+  {
+    fflush (stdout);
+    std::string r;
+    char buf[4096];
+    off_t off = 0;
+    while (r.size () < 4096)
+      {
+	ssize_t n = pread (g_stdoutfd, buf, sizeof buf, off);
+	if (n <= 0)
+	  break;
+	r.append (buf, n);
+	off += n;
+      }
+    return r;
   }
 
   std::string
@@ -799,6 +826,9 @@ child_run_plan (plan const &p, int out_fd)
   std::string se = capture_stderr_take ();
   if (! se.empty ())
     emit ("teardown-err " + hexenc (se));
+  std::string so = captured_stdout ();
+  if (! so.empty ())
+    emit ("note stdout " + hexenc (so));
 
   // counters first, so that they survive an end-of-run violation
   fs_counters &fc = fs_stats ();
@@ -813,6 +843,7 @@ child_run_plan (plan const &p, int out_fd)
   emit ("ctr io_eintr " + std::to_string (fc.io_eintr));
   emit ("ctr closes " + std::to_string (fc.closes));
   emit ("ctr double_close " + std::to_string (fc.double_close));
+  emit ("ctr close_ebadf_in_libs " + std::to_string (fc.close_ebadf_in_libs));
   emit ("ctr cache_lookups " + std::to_string (hooks_cache_lookups ()));
   emit ("ctr cache_drops " + std::to_string (hooks_cache_drops ()));
   for (auto const &a: g_api_counts)
